@@ -1073,3 +1073,28 @@ cmp -s {src}/big.bin {dst}/big.bin && echo same=1 || echo same=0
         viol(run, 're-running the same sync with overwriting permitted always converges to the mirror state (a destination that ran out of space in the middle of a file must not keep a truncated file stamped with the source\'s time)',
              first_rc=g('rc1'), partial_size=g('size1'), partial_mtime_s=g('mt1'), source_mtime_s=10**9, rerun_rc=g('rc2'), rerun_output=open(os.path.join(base, 'o2.txt')).read()[-300:] if os.path.exists(os.path.join(base, 'o2.txt')) else ''); return
     shutil.rmtree(base, ignore_errors=True)
+
+
+# ------------------------------------------------------------------ round 11
+@trial('C18', 'C16')
+def arguments_that_are_not_utf8(run, sb):
+    """an argument vector is bytes: an argument that is not valid UTF-8 - as a path, as the value of an option, next to `--doer` - ends with
+    the usage status 2 and a message, like any other argument clap cannot take; it is not a panic (finding C18-F13: `std::env::args()` in main)"""
+    base = os.path.join(sb.dir, 'nu8'); os.makedirs(os.path.join(base, 's'))
+    s, d = os.path.join(base, 's'), os.path.join(base, 'd')
+    vectors = [[b'\xff', d], [s, os.fsencode(d) + b'\xe9'], ['--filter', b'+\xff', s, d], ['--dry-run', s, d, b'--\xfe'], ['--doer', b'\xff'],
+               ['--spec', b'/nonexistent\xff.yaml'], ['--dest-file-newer', b'overwrit\xe9', s, d]]
+    for k, args in enumerate(vectors):
+        r = run_cli_bytes(args, sb)
+        run.case(('trial', 'non-utf8-argument', k), True, sample=dict(layer='L4', trial='non-utf8-argument', case=k, rc=r['rc']))
+        run.count(f'trial:non-utf8-argument:rc={r["rc"]}')
+        if r['timeout'] or r['rc'] != 2 or 'panicked at' in r['err'] or not r['err'].strip():
+            viol(run, 'every argument vector ends with a documented exit status (2 for usage errors) and a message - never a panic',
+                 args=[a.hex() if isinstance(a, bytes) else a for a in args], rc=r['rc'], stderr=r['err'][-400:]); return
+    if os.path.exists(d):
+        viol(run, 'a rejected argument vector touches nothing', created=d)
+    shutil.rmtree(base, ignore_errors=True)
+
+
+def run_cli_bytes(args, sb):
+    return l4.run_cli(list(args), env=sb.env(), timeout=30)
